@@ -998,5 +998,48 @@ func CrashStates(base *FS, log []Mut, visit func(k int, cut int, st *FS) bool) {
 	}
 }
 
+// CrashStatesSkip is CrashStates with a cheap pre-filter: skip(k, cut, prefixHash) is asked before a state is
+// materialised; prefixHash identifies the sequence of mutations applied (a rolling hash over the log prefix and the
+// torn cut), so that logs sharing a prefix (schedules, histories) do not pay for the same states again.
+func CrashStatesSkip(base *FS, log []Mut, skip func(k, cut int, prefixHash uint64) bool, visit func(k int, cut int, st *FS) bool) {
+	st := base.Clone()
+	h := uint64(1469598103934665603)
+	mix := func(h uint64, b []byte) uint64 {
+		for _, c := range b {
+			h ^= uint64(c)
+			h *= 1099511628211
+		}
+		return h
+	}
+	for k := 0; k <= len(log); k++ {
+		if !skip(k, -1, h) {
+			if !visit(k, -1, st.Clone()) {
+				return
+			}
+		}
+		if k == len(log) {
+			return
+		}
+		m := &log[k]
+		for _, c := range TornCuts(m) {
+			hc := mix(h, []byte(fmt.Sprintf("torn%d", c)))
+			hc = mix(hc, []byte(m.Op+m.Path))
+			hc = mix(hc, m.Data[:c])
+			hc = mix(hc, []byte(fmt.Sprint(m.Off)))
+			if skip(k, c, hc) {
+				continue
+			}
+			t := st.Clone()
+			t.Apply(m, c)
+			if !visit(k, c, t) {
+				return
+			}
+		}
+		st.Apply(m, -1)
+		h = mix(h, []byte(fmt.Sprintf("%s|%s|%s|%d|%d|%d|", m.Op, m.Path, m.Path2, m.Ino, m.Off, m.Size)))
+		h = mix(h, m.Data)
+	}
+}
+
 // StartLog clears the mutation log (subsequent mutations are logged from index 0).
 func (f *FS) StartLog() { f.Log = nil }
